@@ -1,1 +1,55 @@
-(* placeholder *)
+(* Props/C01.v — property C01: circuit impedance obeys the series/parallel composition laws.
+   Only statements; proofs are [exact <lemma>] into Circuit/Imp_facts.v and Circuit/ImpC.v.
+   [impl] is the line-by-line model of Series._impedance / Parallel._impedance on vectors of frequencies
+   (open-path counter, shorted mask, early returns); [spec] is the pointwise law on extended values. *)
+From Coq Require Import Reals ZArith Bool List.
+From Coquelicot Require Import Coquelicot.
+From PV Require Import Base.Outcome Circuit.Imp Circuit.Imp_facts Circuit.ImpC.
+Import ListNotations.
+
+(* For every number type, every tree (any nesting, any width), every vector length and every assignment of
+   leaf vectors: whenever the vector implementation returns, its i-th entry is the pointwise law applied to the
+   i-th entries of the leaves. *)
+Theorem C01_impl_sound :
+  forall (K : Type) (k0 : K) (kadd : K -> K -> K) (kinv : K -> K) (kis0 : K -> bool)
+         (leafv : nat -> list (ez K)) (n : nat),
+  (forall id, length (leafv id) = n) ->
+  forall t v, impl K k0 kadd kinv kis0 leafv n t = Ok v ->
+  v = map (fun i => spec K k0 kadd kinv kis0 t (fun id => nth i (leafv id) Inf)) (seq 0 n).
+Proof. exact impl_sound. Qed.
+Print Assumptions C01_impl_sound.
+
+(* evaluating as an array and one frequency at a time agree wherever both return *)
+Theorem C01_vector_eq_pointwise :
+  forall (K : Type) (k0 : K) (kadd : K -> K -> K) (kinv : K -> K) (kis0 : K -> bool)
+         (leafv : nat -> list (ez K)) (n : nat) t v (i : nat) x,
+  (forall id, length (leafv id) = n) -> (i < n)%nat ->
+  impl K k0 kadd kinv kis0 leafv n t = Ok v ->
+  impl K k0 kadd kinv kis0 (fun id => [nth i (leafv id) Inf]) 1 t = Ok [x] ->
+  nth i v Inf = x.
+Proof. exact vector_eq_pointwise. Qed.
+Print Assumptions C01_vector_eq_pointwise.
+
+(* the law itself, over the complex numbers *)
+Theorem C01_series_law : forall a b : C, cspec (CSer [Leaf 0; Leaf 1]) (two (Zf a) (Zf b)) = Zf (a + b)%C.
+Proof. exact series_law. Qed.
+Print Assumptions C01_series_law.
+
+Theorem C01_parallel_law : forall a b : C, a <> 0%C -> b <> 0%C -> (/ a + / b <> 0)%C ->
+  cspec (CPar [Leaf 0; Leaf 1]) (two (Zf a) (Zf b)) = Zf (/ (/ a + / b))%C.
+Proof. exact parallel_law. Qed.
+Print Assumptions C01_parallel_law.
+
+Theorem C01_open_branch_contributes_nothing : forall a : C, a <> 0%C ->
+  cspec (CPar [Leaf 0; Leaf 1]) (two (Zf a) Inf) = Zf a.
+Proof. exact open_branch. Qed.
+Print Assumptions C01_open_branch_contributes_nothing.
+
+Theorem C01_shorted_branch_shorts : forall x : ez C,
+  cspec (CPar [Leaf 0; Leaf 1]) (two (Zf (RtoC 0)) x) = Zf (RtoC 0).
+Proof. exact short_branch. Qed.
+Print Assumptions C01_shorted_branch_shorts.
+
+(* NOT YET PROVED (kept visible): spec_flatten : spec (norm t) = spec t up to field equality — independence of the
+   construction route then follows from C03's parse (print t) = norm t.  It is checked per generated circuit on the
+   implementation (parsed vs object-built, C01 harness). *)
